@@ -43,11 +43,63 @@ func nil0() *rand.Rand { return rand.New(rand.NewSource(0)) }
 type fuzzInput struct {
 	text  string
 	class string
+	unrep bool // holds a numeric literal that neither int64 nor float64 can represent: accepting it means part of the text was lost
+}
+
+// exprFragments x exprPositions: every kind of expression in every place an expression can stand.
+var exprFragments = []string{"count(*)", "count(n)", "count(distinct n.a)", "n.a[0]", "n.a[1..2]", "case when n.x = 1 then 2 else 3 end", "[x in n.l | x]", "[x in n.l where x > 1]",
+	"all(x in n.l where x = 1)", "exists((n)-->())", "exists(n.x)", "shortestPath((n)-[*]->(m))", "{a: 1, b: [2]}", "$p", "-1", "not n.x", "n:A", "n.x in [1, 2]",
+	"n.s starts with 'a'", "1 + 2 * 3", "reduce(a = 0, x in [1] | a + x)", "(n)-->()", "n.x is not null", "coalesce(n.a, n.b)", "toLower(n.s) =~ 'a.*'", "id(n)", "null", "true", "'s'", "1.5", "n"}
+var exprPositions = []string{"match (n) where %s return n", "match (n) return %s", "match (n) return n order by %s", "match (n) return n order by n.a, %s desc", "match (n) return n skip %s",
+	"match (n) return n limit %s", "match (n) with %s as x return x", "unwind %s as x return x", "match (n) set n.x = %s", "match (n) return [%s, 1]", "match (n) return {k: %s}",
+	"match (n) return size(%s)", "match (n {p: %s}) return n", "match (n) delete %s", "return %s", "match (n) where n.y = 1 and %s or n.z = 2 return n", "match (n)-[r:E {w: %s}]->() return r",
+	"match (n) with n order by %s limit 1 return n", "merge (n:A {k: %s}) on create set n.c = %s"}
+
+// unrepresentable numeric literals and the places a number can stand
+var unrepNumbers = []string{"99999999999999999999", "9223372036854775808", "-9223372036854775809", "0x8000000000000000", "0xffffffffffffffffff", "1e999", "-1e999", "1e400"}
+var numberPositions = []string{"match (n) where n.x = %s return n", "match (n) return %s", "match (n) return n skip %s", "match (n) return n limit %s", "match ()-[*%s]->() return 1",
+	"match ()-[*1..%s]->() return 1", "match ()-[*%s..]->() return 1", "match ()-[r:E*..%s]->() return r", "match (n) where (n)-[*2..%s]->() return n", "match (n {p: %s}) return n",
+	"match (n) return [1, %s]", "match (n) return {k: %s}", "match (n) set n.x = %s", "match (n) return n.a[%s]", "unwind [%s] as x return x", "match (n) return n order by n.x + %s",
+	"match (n) where n.x in [%s] return n", "match (n) return -%s"}
+
+// recoveryInputs: every prefix of a text at a token boundary, and the text with one stray delimiter after every token -
+// the inputs on which ANTLR's error recovery hands the listeners a tree that no valid query produces.
+func recoveryInputs(text string, delims []string) []string {
+	toks := tokens(text)
+	var out []string
+	for i := 1; i < len(toks); i++ {
+		out = append(out, strings.Join(toks[:i], " "))
+		for _, d := range delims {
+			out = append(out, strings.Join(toks[:i], " ")+d)
+			out = append(out, strings.Join(toks[:i], " ")+" "+d+" "+strings.Join(toks[i:], " "))
+		}
+	}
+	return out
 }
 
 func fuzzInputs(rng *rand.Rand, perText int, deep bool) []fuzzInput {
 	var in []fuzzInput
-	add := func(t, c string) { in = append(in, fuzzInput{t, c}) }
+	add := func(t, c string) { in = append(in, fuzzInput{text: t, class: c}) }
+	for _, pos := range numberPositions {
+		for _, num := range unrepNumbers {
+			in = append(in, fuzzInput{text: strings.ReplaceAll(pos, "%s", num), class: "unrepresentable-number", unrep: true})
+		}
+	}
+	for fi, frag := range exprFragments {
+		for pi, pos := range exprPositions {
+			text := strings.ReplaceAll(pos, "%s", frag)
+			add(text, "expr-position")
+			if perText > 0 {
+				delims := []string{"(", ")", "[", "]", "{", "}", "'", ",", "|", "*"}
+				if !deep {
+					delims = []string{delims[(fi+pi)%len(delims)], delims[(fi*3+pi+1)%len(delims)]}
+				}
+				for _, r := range recoveryInputs(text, delims) {
+					add(r, "recovery")
+				}
+			}
+		}
+	}
 	// blank and near-blank inputs
 	for _, b := range []string{"", "\u00a0", "\n\t  ", " ", ";", " ; ", "//", "/* */"} {
 		add(b, "blank")
@@ -110,6 +162,11 @@ func fuzzInputs(rng *rand.Rand, perText int, deep bool) []fuzzInput {
 		if len(toks) < 2 {
 			continue
 		}
+		if deep {
+			for i := 1; i < len(toks); i++ {
+				add(strings.Join(toks[:i], " "), "truncated")
+			}
+		}
 		for k := 0; k < perText; k++ {
 			i := rng.Intn(len(toks))
 			j := rng.Intn(len(toks))
@@ -167,7 +224,7 @@ func Fuzz(args []string) {
 			}
 			w.Emit(map[string]any{"e": "parse", "hid": hid*2 + ci, "class": in.class, "context": []string{"unfiltered", "default"}[ci], "input": strings.ToValidUTF8(shown, "�"),
 				"len": len(in.text), "blank": strings.TrimSpace(in.text) == "", "ok": out.ok, "modelnil": out.model == nil, "panic": out.panicky, "err": out.err,
-				"ms": ms, "budget_ms": 10000})
+				"ms": ms, "budget_ms": 10000, "unrepresentable": in.unrep})
 		}
 	}
 	w.Close()
